@@ -256,7 +256,53 @@ def deviations(t):
 
 def classify2(st, eff, rep):
     """e4.classify plus the loop-iteration invariant of the seam"""
-    return e4.classify(st, rep) or ('the stack grows with every datagram handled' if 'STACKGROWTH' in eff else None)
+    return e4.classify(st, rep) or ('the stack grows with every datagram handled' if 'STACKGROWTH' in eff else None) or \
+        ('reads a timer that is not pending (blocks while datagrams wait)' if 'TIMERBLOCK' in eff else None)
+
+
+POLLING = ('aaf-listener', 'cvf-listener', 'crf-listener')       # receive loops that poll() a socket and a timer
+
+
+def conversations(name, L, depth):
+    """all sequences up to `depth` over {datagram variants} x {poll answers D, E, B}: (sid, args, presets, events, mode, description)"""
+    out = []
+    for mlabel, args, presets, mparam in L['modes']:
+        temps = list(L['templates'](mparam))
+        variants = []
+        for t in temps:
+            variants.append((t.label, t.data))
+            for fmt, field, base, vals in t.fields:
+                if field == 'avtp_timestamp':
+                    for v in (vals[0], vals[-1] if len(vals) < 4 else vals[3]):       # just before the seam's next full second / two seconds ahead
+                        b = bytearray(t.data); setf(b, fmt, field, v, base)
+                        variants.append(('%s/ts=%#x' % (t.label, v), bytes(b)))
+                if field == 'stream_id':
+                    b = bytearray(t.data); setf(b, fmt, field, vals[0], base)
+                    variants.append((t.label + '/other-stream', bytes(b)))
+            variants.append((t.label + '/truncated', t.data[:len(t.data) - 1]))
+        # position-dependent payload byte so that the order of effects is visible
+        symbols = [(k, lab, d) for k in 'DEB' for lab, d in variants]
+        for n in range(1, depth + 1):
+            for seq in itertools.product(range(len(symbols)), repeat=n):
+                # sequences that differ only in the poll answer of the first datagram are the same (no timer can be pending yet)
+                if symbols[seq[0]][0] != 'D':
+                    continue
+                evs, desc, want = [], [], []
+                for pos, si in enumerate(seq):
+                    k, lab, d = symbols[si]
+                    accepted = not lab.endswith(('/other-stream', '/truncated'))
+                    if accepted and name in ('aaf-listener', 'cvf-listener'):
+                        # reference model of the presentation side: every accepted datagram is presented once, in arrival order
+                        d = bytearray(d)
+                        at = len(d) - 1 if name == 'aaf-listener' else 28
+                        d[at] = 0x80 + pos
+                        d = bytes(d)
+                        pay = d[24:] if name == 'aaf-listener' else d[28:]
+                        want.append('OUT %s(%d)' % (pay[:64].hex(), len(pay)))
+                    evs.append(k + d.hex())
+                    desc.append('%s:%s' % (k, lab))
+                out.append(('%s|%s|conv|%s' % (name, mlabel, '.'.join(map(str, seq))), args, presets, evs, mlabel, ' '.join(desc), want if name in ('aaf-listener', 'cvf-listener') else None))
+    return out
 
 
 def effect_tokens(effects):
@@ -287,6 +333,8 @@ def run(prop, tier):
     kmax = 2 if tier == 'quick' else 3
     nlong = 3000 if tier == 'quick' else 20000
     nlongdg = 0
+    convdepth = 3 if tier == 'quick' else 4
+    nconv = 0
     planted = e4.selftest(b)
     res = core.Result()
     table = []      # replay table
@@ -469,6 +517,37 @@ def run(prop, tier):
                         e['count'] += 1
                         e['modes'].add(mlabel); e['devs'].add('long-run')
         scripts_long = {x[0]: [x[1], x[2], x[3]] for x in lr}
+        if name in POLLING:
+            # conversations: every sequence up to the depth over datagram variants x poll answers (timer first / datagram first / both ready)
+            cv = conversations(name, L, convdepth + (1 if name == 'aaf-listener' and tier != 'quick' else 0))
+            rp_, rz_ = e4.run_batch(exe, [x[:4] for x in cv]), e4.run_batch(exe_zero, [x[:4] for x in cv])
+            nseq += 2 * len(cv)
+            nconv += len(cv)
+            for sid, args_, presets_, evs, mlabel, desc, want in cv:
+                for variant, rr in (('pattern', rp_), ('zero', rz_)):
+                    st, eff, rep = rr[sid]
+                    dist.add((name, st, eff[:60]))
+                    cls = classify2(st, eff, rep)
+                    if cls:
+                        key = '%s: in a conversation: %s' % (name, cls)
+                        e = res.viol.setdefault(('C18', key), {'count': 0, 'case': sid, 'detail': 'first: mode %s, [%s] (%s build): %s' % (mlabel, desc, variant, rep[:300] or st), 'tag': '', 'modes': set(), 'devs': set()})
+                        e['count'] += 1
+                        e['modes'].add(mlabel); e['devs'].add('conversation')
+                        break
+                else:
+                    a, z = rp_[sid], rz_[sid]
+                    got = [tok for tok in a[1].split(';') if tok.startswith('OUT ')]
+                    if want is not None and got != want:
+                        key = '%s: in a conversation: accepted datagrams are not each presented once in arrival order' % name
+                        e = res.viol.setdefault(('C18', key), {'count': 0, 'case': sid, 'detail': 'first: mode %s, [%s]: %d accepted, %d presented; expected %s got %s' % (mlabel, desc, len(want), len(got), [w[:24] for w in want], [g[:24] for g in got]), 'tag': '', 'modes': set(), 'devs': set()})
+                        e['count'] += 1
+                        e['modes'].add(mlabel); e['devs'].add('conversation')
+                    if (a[0], a[1]) != (z[0], z[1]):
+                        key = '%s: behaviour depends on an uninitialised value' % name
+                        e = res.viol.setdefault(('C18', key), {'count': 0, 'case': sid, 'detail': 'first: mode %s, conversation [%s]: pattern-initialised locals %s %s, zero-initialised %s %s' % (mlabel, desc, a[0], a[1][:120], z[0], z[1][:120]), 'tag': '', 'modes': set(), 'devs': set()})
+                        e['count'] += 1
+                        e['modes'].add(mlabel); e['devs'].add('conversation')
+            scripts_long.update({x[0]: [x[1], x[2], x[3]] for x in cv})
         if len(samples) < 4:
             samples.append('%s: %d scripts, e.g. %s' % (name, len(scripts), [m for m in list(meta.values())[3:4]]))
         for sid, m in meta.items():
